@@ -320,6 +320,65 @@ def answerH5l (m : List (String × String)) : String :=
       s!"{joinOr outs} | O={showSettings w.orig.cache} C={cs} after={showEntries (sortEntries (fresh.read w.disk))}"
   | _, _ => "bad-op"
 
+/-! ### `AnalyticDiscipline` written by one interpreter, restored by another (`ad`)
+
+  ad exprs=<out>~<mono>+<mono>;<out>~...  wenv=<out>~s1+s2;...  renv=<out>~s2+s1;...  mode=init|lam  pts=<s^rat+s^rat>|...
+       mono : <rat>*s1*s2 (a constant: <rat>)
+       wenv / renv : the order in which the writer / the reader iterates over the free symbols of each expression
+       mode : init = `__setstate__` of the code (`_init_expressions`), lam = `_lambdify_expressions` only
+     -> one block per point, joined by " | ":
+        o=<out^value,...>;<out.symbol^value,...> c=<the same for the restored discipline>   (sorted)
+-/
+
+def parseMono (s : String) : Option Mono :=
+  match s.splitOn "*" with
+  | c :: syms => (parseRat? c).map (fun r => (r, syms))
+  | _ => none
+
+def parseExprs (s : String) : Option (List (String × Poly)) :=
+  if s = "[]" || s = "" then some [] else
+  (s.splitOn ";").mapM (fun t => match t.splitOn "~" with
+    | [o, ms] => ((plusList ms).mapM parseMono).map (fun p => (o, p))
+    | _ => none)
+
+def parseOrders (s : String) : List (List String) :=
+  if s = "[]" || s = "" then [] else
+  (s.splitOn ";").filterMap (fun t => match t.splitOn "~" with
+    | [_, l] => some (plusList l)
+    | _ => none)
+
+/-- The interpreter observed by the harness: a set iterates in the observed order of that set. -/
+def envOfTable (tbl : List (List String)) : Env := fun s =>
+  match tbl.find? (fun t => t.length == s.length && s.all (fun n => t.contains n)) with
+  | some t => t
+  | none => s
+
+def parsePoint (s : String) : Option (List (String × Rat)) :=
+  (plusList s).mapM (fun t => match t.splitOn "^" with
+    | [n, v] => (parseRat? v).map (fun r => (n, r))
+    | _ => none)
+
+def showAD (a : AD) (ρ : String → Rat) : String :=
+  let outs := showPairsSorted showRat (a.run ρ)
+  let jac := (a.jac ρ).flatMap (fun ofs => ofs.2.map (fun nv => (ofs.1 ++ "." ++ nv.1, nv.2)))
+  s!"{outs};{showPairsSorted showRat jac}"
+
+def answerAd (m : List (String × String)) : String :=
+  let ptsS := field m "pts"
+  let pts : Option (List (List (String × Rat))) :=
+    if ptsS = "[]" || ptsS = "" then some [] else (ptsS.splitOn "|").mapM parsePoint
+  match parseExprs (field m "exprs"), pts with
+  | some exprs, some pts =>
+    let ew := envOfTable (parseOrders (field m "wenv"))
+    let er := envOfTable (parseOrders (field m "renv"))
+    let orig := AD.create ew exprs
+    let copy := if field m "mode" = "lam" then AD.setstateRelambdify er orig.getstate else AD.setstate er orig.getstate
+    let blocks := pts.map (fun pt =>
+      let ρ : String → Rat := fun n => (GV.C20.get pt n).getD 0
+      s!"o={showAD orig ρ} c={showAD copy ρ}")
+    if blocks.isEmpty then "_" else " | ".intercalate blocks
+  | _, _ => "bad-op"
+
 def answer (line : String) : String :=
   match tokens line with
   | "rt" :: rest => answerRt (kvs rest)
@@ -327,6 +386,7 @@ def answer (line : String) : String :=
   | "h5" :: rest => answerH5 (kvs rest)
   | "jgl" :: rest => answerJgl (kvs rest)
   | "h5l" :: rest => answerH5l (kvs rest)
+  | "ad" :: rest => answerAd (kvs rest)
   | _ => "bad-op"
 
 def main : IO Unit := driverLoop (fun (_ : Unit) l => ((), answer l)) ()
